@@ -297,11 +297,20 @@ func (rs *RelationService) EndTxn() {
 	rs.fs.unlockShared()
 }
 
+// Close waits for a running statement before it closes the log: the statement
+// appends its records first, and none starts between closing the log and
+// flushing the pages. (Closing the log at once made a running statement fail
+// with "file already closed" while the flush below still made its changes
+// durable.) The timer is stopped before the lock is taken: it may be waiting
+// for it.
 func (rs *RelationService) Close() error {
+	rs.fs.stopFlusher()
+	rs.fs.lockExclusive()
+	defer rs.fs.unlockExclusive()
 	if err := rs.wal.close(); err != nil {
 		return err
 	}
-	return rs.fs.close()
+	return rs.fs.closeLocked()
 }
 
 func OpenRelation(dbName string, forceWALSync bool) (*RelationService, error) {
